@@ -37,7 +37,9 @@ func (g *customGen[V]) value(t *T) V {
 }
 
 func (g *customGen[V]) maybeValue(t *T) (V, bool) {
+	outer := t
 	t = newT(t.tb, t.s, flags.debug, nil)
+	defer outer.adoptFailure(t) // a plain deferred call: the closure below has to stay maybeValue.func1 for tracebackBlacklist
 	defer t.cleanup()
 
 	defer func() {
